@@ -40,6 +40,15 @@ def loop (deadline interval : Nat) (release : Option Nat) : Nat → Nat → Outc
     else if deadline < t then .timedOut t
     else loop deadline interval release fuel (t + interval)
 
+/-- the same loop when OTHER operations (snapshot, backup, integrity check) may take and release
+the gate at any time: `held t` says whether somebody holds it at time `t` -/
+def loopH (deadline interval : Nat) (held : Nat → Bool) : Nat → Nat → Outcome
+  | 0, t => .timedOut t
+  | fuel + 1, t =>
+    if !held t then .acquired t
+    else if deadline < t then .timedOut t
+    else loopH deadline interval held fuel (t + interval)
+
 /-- effective interval: real iterations take time -/
 def effInterval (interval : Int) : Nat := if interval < 1 then 1 else interval.toNat
 
@@ -48,6 +57,12 @@ def beginWithRetry (start : Nat) (timeout interval : Int) (release : Option Nat)
   let iv := effInterval interval
   let to := timeout.toNat        -- a negative timeout puts the deadline in the past: same as 0 here
   loop (start + to) iv release (to / iv + 2) start
+
+/-- `BeginWithRetry` against an arbitrary schedule of other holders -/
+def beginWithRetryH (start : Nat) (timeout interval : Int) (held : Nat → Bool) : Outcome :=
+  let iv := effInterval interval
+  let to := timeout.toNat
+  loopH (start + to) iv held (to / iv + 2) start
 
 /-! ### line protocol (component `casretry`)
 `bwr <start> <timeout> <interval> <release|->` → `acquired <t>` | `timeout <t>`
